@@ -68,6 +68,9 @@ Definition write_sentry (e : sid * list (bytes * bytes)) : bytes :=
 Definition stream_items (es : list (sid * list (bytes * bytes))) : Z :=
   fold_right (fun e acc => 2 + 2 * len (snd e) + acc) 1 es.
 
+(** a list that itself starts with the stream marker is written with the marker doubled (6aaeb35) *)
+Definition list_escaped (l : list bytes) : bool :=
+  match l with h :: _ => beq h marker | [] => false end.
 (** the type byte, the key and the payload of write_key_value (rdb.rs:556-660) *)
 Definition write_value (k : bytes) (v : value) : bytes :=
   match v with
@@ -75,19 +78,22 @@ Definition write_value (k : bytes) (v : value) : bytes :=
   | VZSet z => T_ZSET :: write_string k ++ write_length (len z) ++ flat_map write_zitem z
   | VStream s => T_LIST :: write_string k ++ write_length (stream_items (s_entries s))
                  ++ write_string marker ++ flat_map write_sentry (s_entries s)
-  | VList l => T_LIST :: write_string k ++ write_length (len l) ++ flat_map write_string l
+  | VList l => T_LIST :: write_string k ++ write_length (len l + (if list_escaped l then 1 else 0))
+               ++ (if list_escaped l then write_string marker else []) ++ flat_map write_string l
   | VSet s => T_SET :: write_string k ++ write_length (len s) ++ flat_map write_string s
   | VHash h => T_HASH :: write_string k ++ write_length (len h) ++ flat_map write_pair h
   end.
 
-(** one key of write_snapshot's loop (rdb.rs:435-449): [storage.get] (lazy expiry:
-    an expired key is skipped), [storage.ttl], then write_key_value with
-    [expiry_ms = wall + ttl] (release arithmetic: wraps at 2^64, see [save_panics]) *)
+(** [expiry_ms]: [u64::try_from(ttl.as_millis()).unwrap_or(u64::MAX)] saturating-added to the
+    wall clock (745a34c) *)
+Definition expiry_of (now wall t : Z) : Z := Z.min u64_max (wall + Z.min u64_max (t - now)).
+(** one key of write_snapshot's loop: [storage.get_with_ttl] (880a648: value and remaining TTL
+    under one lock acquisition; an expired or missing key is skipped), then write_key_value *)
 Definition write_key (now wall : Z) (ke : bytes * entry) : bytes :=
   let (k, e) := ke in
   if expired now e then []
   else match e_exp e with
-       | Some t => OP_EXPIRE_MS :: u64_le ((wall + (t - now) mod two64) mod two64) ++ write_value k (e_val e)
+       | Some t => OP_EXPIRE_MS :: u64_le (expiry_of now wall t) ++ write_value k (e_val e)
        | None => write_value k (e_val e)
        end.
 
@@ -114,15 +120,10 @@ Definition save_body (ver : bytes) (ctime now wall : Z) (ds : list db) : bytes :
 Definition save (ver : bytes) (ctime now wall : Z) (ds : list db) : bytes :=
   let b := save_body ver ctime now wall ds in b ++ u64_le (byte_sum b mod two64).
 
-(** Debug profile (overflow checks on): the writer panics on [skiplist.len() - 1] of an
-    empty sorted set and on [now_ms as u64 + ttl_ms as u64] >= 2^64. *)
-Definition key_panics (now wall : Z) (ke : bytes * entry) : bool :=
-  let e := snd ke in
-  if expired now e then false
-  else (match e_exp e with Some t => two64 <=? wall + (t - now) mod two64 | None => false end)
-       || (match e_val e with VZSet [] => true | _ => false end).
-Definition save_panics (now wall : Z) (ds : list db) : bool :=
-  existsb (fun d => existsb (key_panics now wall) (d_data d)) ds.
+(** The writer has no panicking arithmetic left: the expiry saturates (745a34c) and a sorted set
+    is written as the items taken once with THEIR count (e63a0b6; an empty one - not storable
+    through the commands - is written with count 0 and is not restored).  Kept for the runner. *)
+Definition save_panics (now wall : Z) (ds : list db) : bool := false.
 
 (** the write_raw calls of one save are not modelled one by one here; Props/C10.v is
     stated for an arbitrary list of writes whose concatenation is [save ...]. *)
@@ -174,9 +175,16 @@ Definition read_length : rd -> rres Z :=
   else if t =? 2 then read_u32_be
   else fail.
 
-(** read_string: the buffer of the declared length is allocated before anything is read *)
+(** read_string (43b3590): [Vec::with_capacity(min(len, 64 KiB))], then
+    [take(len).read_to_end]: the buffer grows (by doubling, plus read_to_end's 32-byte probe)
+    only with the bytes actually read, [got] = min(len, bytes present); a short read is an error.
+    Ghost: every request is at most [min(len, 65536)] or [2 * got + 32]. *)
 Definition read_string : rd -> rres bytes :=
-  n <- read_length ;; _ <- reserve n ;; read_exact n.
+  n <- read_length ;; _ <- reserve (Z.min n 65536) ;;
+  fun s => match take (r_in s) n with
+           | Some (a, b) => (Some a, {| r_in := b; r_resv := Z.max (r_resv s) (2 * n + 32) |})
+           | None => (None, {| r_in := []; r_resv := Z.max (r_resv s) (2 * len (r_in s) + 32) |})
+           end.
 
 (** [for _ in 0..n { read_string()? }]: every iteration consumes at least one byte, so
     [fuel >= length input] iterations suffice; the counter stays in Z (a corrupt count
@@ -275,6 +283,11 @@ Definition api_set (now : Z) (ds : list db) (i : Z) (k v : bytes) (ttl : option 
   end.
 (** zadd refuses a NaN score before anything else (engine.rs, after the repair of the
     NaN-node defect) *)
+Definition api_set_value (now : Z) (ds : list db) (i : Z) (k : bytes) (v : value) (ttl : option Z) : option (list db) :=
+  match get_dbi ds i with
+  | Some d => Some (set_dbi ds i (set_value now d k v ttl))
+  | None => None
+  end.
 Definition api_zadd (ds : list db) (i : Z) (k m : bytes) (sc : Z) : option (list db) :=
   if f_nan sc then None else
   match get_dbi ds i with
@@ -402,15 +415,18 @@ Record lst := { l_rd : rd; l_dbs : list db }.
 Inductive step A := SOk (a : A) (s : rd) (ds : list db) | SErr (s : rd) (ds : list db) | SPanic (s : rd) (ds : list db).
 Arguments SOk {A}. Arguments SErr {A}. Arguments SPanic {A}.
 
-(** stream reconstruction loop (rdb.rs:881-919).  [chk] = overflow checks on (debug). *)
-Fixpoint load_stream (chk : bool) (fuel : nat) (ds : list db) (i : Z) (k : bytes)
-         (idx remaining : Z) (s : rd) : step unit :=
+(** stream reconstruction loop (rdb.rs); [pre]: the ID string of the first entry, already read
+    while telling a stream from a list that starts with the marker.  An entry takes two strings
+    (ID, field count) and its pairs (31c6d8d: [entry_idx + 2 > remaining] breaks); the field
+    count's arithmetic is checked (bcfe7be): an overflow is "not enough data" *)
+Fixpoint load_stream (fuel : nat) (ds : list db) (i : Z) (k : bytes)
+         (idx remaining : Z) (pre : option bytes) (s : rd) : step unit :=
   match fuel with
   | O => SErr s ds
   | S f =>
     if remaining <=? idx then SOk tt s ds else
-    if remaining <=? idx + 2 then SOk tt s ds else             (* break: not enough for an entry *)
-    match read_string s with
+    if remaining <? idx + 2 then SOk tt s ds else             (* break: not enough for an entry *)
+    match (match pre with Some id => (Some id, s) | None => read_string s end) with
     | (None, s1) => SErr s1 ds
     | (Some id_str, s1) =>
       match read_string s1 with
@@ -418,8 +434,7 @@ Fixpoint load_stream (chk : bool) (fuel : nat) (ds : list db) (i : Z) (k : bytes
       | (Some fc_str, s2) =>
         let idx2 := idx + 2 in
         let fc := match parse_usize fc_str with Some n => n | None => 0 end in
-        if chk && ((two64 <=? fc * 2) || (two64 <=? idx2 + fc * 2)) then SPanic s2 ds else
-        if remaining <? (idx2 + (fc * 2) mod two64) mod two64 then SOk tt s2 ds else   (* break *)
+        if (two64 <=? idx2 + fc * 2) || (remaining <? idx2 + fc * 2) then SOk tt s2 ds else   (* break *)
         match read_pairs (S (length (r_in s2))) fc [] s2 with
         | (None, s3) => SErr s3 ds
         | (Some fv, s3) =>
@@ -427,7 +442,7 @@ Fixpoint load_stream (chk : bool) (fuel : nat) (ds : list db) (i : Z) (k : bytes
                        | Some id => api_xadd ds i k id (h_ins_all [] fv)
                        | None => ds
                        end in
-            load_stream chk f ds' i k (idx2 + 2 * fc) remaining s3
+            load_stream f ds' i k (idx2 + 2 * fc) remaining None s3
         end
       end
     end
@@ -471,7 +486,7 @@ Fixpoint read_strings_partial (fuel : nat) (n : Z) (acc : list bytes) (s : rd)
   end.
 
 (** read_key_value_with_type (rdb.rs:843-982) *)
-Definition load_kv (chk : bool) (now : Z) (ds : list db) (i : Z) (vt : Z) (ttl : option Z) (s : rd) : step unit :=
+Definition load_kv (now : Z) (ds : list db) (i : Z) (vt : Z) (ttl : option Z) (s : rd) : step unit :=
   let fuel := S (length (r_in s)) in
   if vt =? T_STRING then
     match read_string s with
@@ -506,24 +521,44 @@ Definition load_kv (chk : bool) (now : Z) (ds : list db) (i : Z) (vt : Z) (ttl :
           match read_string s2 with
           | (None, s3) => SErr s3 ds
           | (Some first, s3) =>
-            if beq first marker then
-              match load_stream chk fuel ds i k 0 (n - 1) s3 with
-              | SOk _ s4 ds1 => lift_api tt s4 ds1 (api_expire_opt now ds1 i k ttl)
-              | r => r
-              end
-            else
-              match api_rpush ds i k [first] with
-              | None => SErr s3 ds
-              | Some ds1 =>
-                match read_strings_partial fuel (n - 1) [] s3 with
-                | (els, ok, s4) =>
-                  match (match els with [] => Some ds1 | _ => api_rpush ds1 i k els end) with
-                  | None => SErr s4 ds1
-                  | Some ds2 =>
-                      if ok then lift_api tt s4 ds2 (api_expire_opt now ds2 i k ttl) else SErr s4 ds2
+            (* marker twice = a list that starts with the marker: the first one is dropped;
+               marker then something else = a stream, that string is its first ID *)
+            let look :=
+              if beq first marker && (2 <=? n) then
+                match read_string s3 with
+                | (None, s4) => (None, s4)
+                | (Some second, s4) =>
+                    if beq second marker then (Some (false, n - 1, None), s4)
+                    else (Some (true, n, Some second), s4)
+                end
+              else (Some (beq first marker, n, None), s3) in
+            match look with
+            | (None, s4) => SErr s4 ds
+            | (Some (is_stream, n', pre), s4) =>
+              if is_stream then
+                (* the key exists even when no entry follows (1a77fe9) *)
+                match api_set_value now ds i k (VStream (mkstream [] (0, 0) 0)) None with
+                | None => SErr s4 ds
+                | Some ds0 =>
+                  match load_stream fuel ds0 i k 0 (n' - 1) pre s4 with
+                  | SOk _ s5 ds1 => lift_api tt s5 ds1 (api_expire_opt now ds1 i k ttl)
+                  | r => r
                   end
                 end
-              end
+              else
+                match api_rpush ds i k [first] with
+                | None => SErr s4 ds
+                | Some ds1 =>
+                  match read_strings_partial fuel (n' - 1) [] s4 with
+                  | (els, ok, s5) =>
+                    match (match els with [] => Some ds1 | _ => api_rpush ds1 i k els end) with
+                    | None => SErr s5 ds1
+                    | Some ds2 =>
+                        if ok then lift_api tt s5 ds2 (api_expire_opt now ds2 i k ttl) else SErr s5 ds2
+                    end
+                  end
+                end
+            end
           end
         else lift_api tt s2 ds (api_expire_opt now ds i k ttl)
       end
@@ -564,18 +599,18 @@ Definition load_kv (chk : bool) (now : Z) (ds : list db) (i : Z) (vt : Z) (ttl :
     end
   else SErr s ds.
 
-(** read_key_value_with_expiry: "already expired" => ttl = None (the key is inserted
-    without a deadline) *)
-Definition load_kv_expiry (chk : bool) (now wall : Z) (ds : list db) (i : Z) (expiry : Z) (s : rd) : step unit :=
+(** read_key_value_with_expiry: "already expired" => ttl = Some(ZERO) (e11d87f): the key is
+    inserted with the deadline "now": expired for every reader *)
+Definition load_kv_expiry (now wall : Z) (ds : list db) (i : Z) (expiry : Z) (s : rd) : step unit :=
   match read_byte s with
   | (None, s1) => SErr s1 ds
   | (Some vt, s1) =>
-      let ttl := if wall <? expiry then Some (expiry - wall) else None in
-      load_kv chk now ds i vt ttl s1
+      let ttl := if wall <? expiry then Some (expiry - wall) else Some 0 in
+      load_kv now ds i vt ttl s1
   end.
 
 (** the opcode loop of load_into; [cur] = current_db *)
-Fixpoint load_loop (chk : bool) (now wall : Z) (fuel : nat) (cur : Z) (ds : list db) (s : rd)
+Fixpoint load_loop (now wall : Z) (fuel : nat) (cur : Z) (ds : list db) (s : rd)
   : lstatus * list db * rd :=
   match fuel with
   | O => (LErr, ds, s)
@@ -590,33 +625,33 @@ Fixpoint load_loop (chk : bool) (now wall : Z) (fuel : nat) (cur : Z) (ds : list
         end
       else if op =? OP_SELECTDB then
         match read_length s1 with
-        | (Some n, s2) => load_loop chk now wall f n ds s2
+        | (Some n, s2) => load_loop now wall f n ds s2
         | (None, s2) => (LErr, ds, s2)
         end
       else if op =? OP_RESIZEDB then
         match (_ <- read_length ;; read_length) s1 with
-        | (Some _, s2) => load_loop chk now wall f cur ds s2
+        | (Some _, s2) => load_loop now wall f cur ds s2
         | (None, s2) => (LErr, ds, s2)
         end
       else if op =? OP_AUX then
         match (_ <- read_string ;; read_string) s1 with
-        | (Some _, s2) => load_loop chk now wall f cur ds s2
+        | (Some _, s2) => load_loop now wall f cur ds s2
         | (None, s2) => (LErr, ds, s2)
         end
       else
         let r := if op =? OP_EXPIRE_MS then
                    match read_u64_le s1 with
-                   | (Some e, s2) => load_kv_expiry chk now wall ds cur e s2
+                   | (Some e, s2) => load_kv_expiry now wall ds cur e s2
                    | (None, s2) => SErr s2 ds
                    end
                  else if op =? OP_EXPIRE_S then
                    match read_u32_le s1 with
-                   | (Some e, s2) => load_kv_expiry chk now wall ds cur (e * 1000) s2
+                   | (Some e, s2) => load_kv_expiry now wall ds cur (e * 1000) s2
                    | (None, s2) => SErr s2 ds
                    end
-                 else load_kv chk now ds cur op None s1 in
+                 else load_kv now ds cur op None s1 in
         match r with
-        | SOk _ s2 ds' => load_loop chk now wall f cur ds' s2
+        | SOk _ s2 ds' => load_loop now wall f cur ds' s2
         | SErr s2 ds' => (LErr, ds', s2)
         | SPanic s2 ds' => (LPanic, ds', s2)
         end
@@ -634,14 +669,14 @@ Definition read_header : rd -> rres unit :=
 Definition empty_dbs : list db := repeat empty_db 16.
 
 (** RdbEngine::load into the databases [ds0] (a fresh engine: [empty_dbs]) *)
-Definition load_from (chk : bool) (now wall : Z) (ds0 : list db) (b : bytes) : lstatus * list db * rd :=
+Definition load_from (now wall : Z) (ds0 : list db) (b : bytes) : lstatus * list db * rd :=
   let s0 := {| r_in := b; r_resv := 0 |} in
   match read_header s0 with
   | (None, s1) => (LErr, ds0, s1)
-  | (Some _, s1) => load_loop chk now wall (S (length b)) 0 ds0 s1
+  | (Some _, s1) => load_loop now wall (S (length b)) 0 ds0 s1
   end.
-Definition load (chk : bool) (now wall : Z) (b : bytes) : lstatus * list db * rd :=
-  load_from chk now wall empty_dbs b.
+Definition load (now wall : Z) (b : bytes) : lstatus * list db * rd :=
+  load_from now wall empty_dbs b.
 
 Definition load_status (r : lstatus * list db * rd) : lstatus := fst (fst r).
 Definition load_dbs (r : lstatus * list db * rd) : list db := snd (fst r).
@@ -662,7 +697,8 @@ Definition calls_value (k : bytes) (v : value) : Z :=
   | VStream s => calls_length (stream_items (s_entries s)) + calls_string marker
                  + zsum (fun e => calls_string (sid_text (fst e)) + calls_string (print_nat (len (snd e)))
                                   + zsum calls_pair (snd e)) (s_entries s)
-  | VList l => calls_length (len l) + zsum calls_string l
+  | VList l => calls_length (len l + (if list_escaped l then 1 else 0))
+               + (if list_escaped l then calls_string marker else 0) + zsum calls_string l
   | VSet s => calls_length (len s) + zsum calls_string s
   | VHash h => calls_length (len h) + zsum calls_pair h
   end.
@@ -712,27 +748,26 @@ Fixpoint sids_ok (last : sid) (es : list (sid * list (bytes * bytes))) : bool :=
   | e :: r => negb (sid_leb (fst e) last) && u64b (fst (fst e)) && u64b (snd (fst e)) && sids_ok (fst e) r
   end.
 Definition sentry_ok (e : sid * list (bytes * bytes)) : bool :=
-  negb (len (snd e) =? 0) && forallb pair_ok (snd e) && nodupb (map fst (snd e)).
+  forallb pair_ok (snd e) && nodupb (map fst (snd e)).
 Definition value_ok (v : value) : bool :=
   match v with
   | VStr b => str_ok b
-  | VList l => lt32 (len l) && forallb str_ok l
-               && match l with [] => false | h :: _ => negb (beq h marker) end
+  | VList l => lt32 (len l + 1) && forallb str_ok l && negb (len l =? 0)
   | VSet s => lt32 (len s) && forallb str_ok s && nodupb s
   | VHash h => lt32 (len h) && forallb pair_ok h && nodupb (map fst h)
   | VZSet z => lt32 (len z) && forallb (fun p => str_ok (fst p) && u64b (snd p) && negb (f_nan (snd p))) z
                && negb (len z =? 0) && zs_canonical z
-  | VStream s => lt32 (stream_items (s_entries s)) && negb (len (s_entries s) =? 0)
+  | VStream s => lt32 (stream_items (s_entries s))
                  && sids_ok (0, 0) (s_entries s) && forallb sentry_ok (s_entries s)
   end.
-(** [wl]: wall clock at the load.  A key already expired at the save is simply not written;
-    a live key must be well formed, its expiry must fit u64, and its deadline must not pass
-    during the downtime (the class expired-reloaded-immortal otherwise) *)
+(** A key already expired at the save is simply not written; a live key must be well formed
+    and its expiry must fit u64 (it saturates otherwise).  [wl] (wall clock at the load) is no
+    longer constrained: a deadline that passes during the downtime is handled by [shift]. *)
 Definition entry_ok (now ws wl : Z) (ke : bytes * entry) : bool :=
   expired now (snd ke)
   || (str_ok (fst ke) && value_ok (e_val (snd ke))
       && match e_exp (snd ke) with
-         | Some t => (ws + (t - now) <? two64) && (wl <? ws + (t - now))
+         | Some t => ws + (t - now) <? two64
          | None => true
          end).
 Definition db_ok (now ws wl : Z) (d : db) : bool :=
@@ -749,8 +784,9 @@ Definition norm_value (v : value) : value :=
   | VStream s => VStream (mkstream (s_entries s) (last_sid (0, 0) (s_entries s)) (len (s_entries s)))
   | _ => v
   end.
-(** the deadline on the clock of the restarted engine: [now'] at the load *)
-Definition shift (now now' ws wl t : Z) : Z := now' + (ws + (t - now) - wl).
+(** the deadline on the clock of the restarted engine ([now'] at the load); a deadline that
+    passed during the downtime becomes [now']: already expired *)
+Definition shift (now now' ws wl t : Z) : Z := now' + Z.max 0 (ws + (t - now) - wl).
 Definition aged_entry (now now' ws wl : Z) (e : entry) : entry :=
   {| e_val := norm_value (e_val e);
      e_exp := match e_exp e with Some t => Some (shift now now' ws wl t) | None => None end |}.
@@ -792,3 +828,58 @@ Definition save_run (ws : list bytes) (failat : option nat) (open_fails rename_f
 Record attempt := { a_writes : list bytes; a_failat : option nat; a_open_fails : bool; a_rename_fails : bool }.
 Definition run_attempt (d : disk) (a : attempt) : disk :=
   fst (save_run (a_writes a) (a_failat a) (a_open_fails a) (a_rename_fails a) d).
+
+(** ------------------------------------------------------------------ *)
+(** * Foreground and background saves (RdbEngine::save / bgsave, rdb.rs:136-192; the auto-save
+      monitor, monitor.rs:71-121, calls bgsave and consults is_bgsave_in_progress).
+      bgsave: refused while [bgsave_in_progress]; otherwise the flag is set and a thread runs
+      [save]; the thread clears the flag after the [match] on the save's result, i.e. on success
+      AND on failure ([rdb_bgsave_clears_flag_after_match], regenerated from rdb.rs).
+      Events: a foreground save runs as a whole; a background save starts ([EvBgStart]) and
+      later finishes ([EvBgEnd]).  (Interleaved writes of a SAVE and a BGSAVE into the one
+      temporary file, and a save thread that panics, are not modelled: class save-race.) *)
+Record pstate := { ps_disk : disk; ps_flag : bool; ps_running : option attempt }.
+Inductive sv_event := EvSave (a : attempt) | EvBgStart (a : attempt) | EvBgEnd.
+Definition ps_init (d : disk) : pstate := {| ps_disk := d; ps_flag := false; ps_running := None |}.
+Definition ps_step (s : pstate) (e : sv_event) : pstate :=
+  match e with
+  | EvSave a => {| ps_disk := run_attempt (ps_disk s) a; ps_flag := ps_flag s; ps_running := ps_running s |}
+  | EvBgStart a =>
+      if ps_flag s then s        (* Err "Background save already in progress" *)
+      else {| ps_disk := ps_disk s; ps_flag := true; ps_running := Some a |}
+  | EvBgEnd =>
+      match ps_running s with
+      | Some a => {| ps_disk := run_attempt (ps_disk s) a; ps_flag := false; ps_running := None |}
+      | None => s
+      end
+  end.
+Definition bg_accepted (s : pstate) : bool := negb (ps_flag s).
+Definition ev_attempts (e : sv_event) : list attempt :=
+  match e with EvSave a => [a] | EvBgStart a => [a] | EvBgEnd => [] end.
+
+(** ------------------------------------------------------------------ *)
+(** * C10 (2): one key under a save that runs beside the command thread (write_snapshot).
+      The save thread reads the key ONCE: [storage.get_with_ttl] returns the value (a deep clone;
+      a sorted set's items are taken once, under the skip list's lock, together with their count)
+      and the deadline under one acquisition of the shard lock (880a648, e63a0b6).  Client
+      commands are atomic with respect to that read; [before] run before it during the save,
+      [after] after it. *)
+Definition kstate := option (value * option Z).          (* absent | (value, deadline) *)
+Inductive cev := CSet (v : value) (dl : option Z) | CExpire (dl : Z) | CPersist | CDel.
+Definition cstep (s : kstate) (c : cev) : kstate :=
+  match c with
+  | CSet v dl => Some (v, dl)
+  | CExpire dl => match s with Some (v, _) => Some (v, Some dl) | None => None end
+  | CPersist => match s with Some (v, _) => Some (v, None) | None => None end
+  | CDel => None
+  end.
+(** what the save writes for the key: its state at the read, nothing if it is absent or past
+    its deadline then ([now] = the engine clock at the read) *)
+Definition snapshot_key (now : Z) (s0 : kstate) (before after : list cev) : kstate :=
+  match fold_left cstep before s0 with
+  | Some (v, Some dl) => if dl <=? now then None else Some (v, Some dl)
+  | x => x
+  end.
+(** the states the key goes through during the save *)
+Fixpoint states_of (s : kstate) (l : list cev) : list kstate :=
+  match l with [] => [s] | c :: r => s :: states_of (cstep s c) r end.
